@@ -1,5 +1,5 @@
 """C15 - SAT solver objects honour the incremental solving contract (contract-shape clauses)"""
-from . import satlayer
+from . import satlayer, litalg
 
 
 def run(ctx):
@@ -12,6 +12,7 @@ def run(ctx):
     satlayer.rule_header(ctx)  # the text back end declares every variable of the call, assumptions included: its model covers them as the embedded one's does
     satlayer.rule_model_not_truncated(ctx)
     satlayer.rule_reply_is_stdout(ctx)
+    litalg.rule_literal_algebra(ctx)
     ctx.assume("the embedded CaDiCaL solver and the external program decide satisfiability correctly (trusted)")
     ctx.assume("rustc's MIR and resolved callees")
     return (
